@@ -9,6 +9,7 @@ import (
 func init() {
 	verifRegister("verifC02Inbound", verifC02Inbound)
 	verifRegister("verifC02AfterRestart", verifC02AfterRestart)
+	verifRegister("verifC02TrailingAttributes", verifC02TrailingAttributes)
 }
 
 var verifAllClasses = []stun.MessageClass{stun.ClassRequest, stun.ClassIndication, stun.ClassSuccessResponse, stun.ClassErrorResponse}
@@ -132,5 +133,41 @@ func verifC02AfterRestart() {
 	a.handleInbound(msg, nl, src)
 	after := w.snap()
 	verifAssert(verifNothingChanged(before, after), "old-generation-message-after-restart=>nothing-changes")
+	verifReach("done")
+}
+
+// Attributes that FOLLOW MESSAGE-INTEGRITY are not covered by it (RFC 5389
+// §15.4: they MUST be ignored, FINGERPRINT excepted): anybody on the path can
+// append them to a genuine, correctly signed request. Whatever is appended —
+// USE-CANDIDATE, a nomination value, a role attribute — the request is handled
+// exactly like the plain check it authentically is: no nomination, no
+// selection, no change of the stored nomination value, no role switch.
+func verifC02TrailingAttributes() {
+	s := verifInboundStep(verifStepCfg{nLocal: 1, nRemote: 1, onlyAuth: true, trailing: true, renomination: true, smallPrio: true, maxPend: 1,
+		classes: []stun.MessageClass{stun.ClassRequest}})
+	appended := s.useCand || s.nomKind != 0 || s.ctrl != 0
+	if !appended {
+		verifReach("nothing-appended")
+	} else {
+		verifReach("appended")
+	}
+	const kf = "C02-attributes-after-integrity-honoured"
+	verifAssertKnown(s.after.controlling == s.before.controlling, "a-role-attribute-behind-MESSAGE-INTEGRITY-switches-no-role", kf, appended)
+	verifAssertKnown(s.after.selected == s.before.selected, "USE-CANDIDATE-or-a-nomination-value-behind-MESSAGE-INTEGRITY-selects-nothing", kf, appended)
+	verifAssertKnown(s.after.lastNom == s.before.lastNom || (s.after.lastNom != nil && s.before.lastNom != nil && *s.after.lastNom == *s.before.lastNom), "the-stored-nomination-value-is-untouched", kf, appended)
+	for i, ps := range s.before.pairs {
+		if i < len(s.after.pairs) {
+			q := s.after.pairs[i]
+			verifAssertKnown(verifAnd(q.nominated == ps.nominated, verifAnd(q.nomOnSucc == ps.nomOnSucc, q.renomOnSucc == ps.renomOnSucc)), "no-nomination-is-recorded-on-any-pair", kf, appended)
+		}
+	}
+	// the genuine part is still honoured: the check is answered
+	n := 0
+	for _, m := range s.newDatagrams() {
+		if m != nil && m.Type.Class == stun.ClassSuccessResponse && m.TransactionID == s.id {
+			n++
+		}
+	}
+	verifAssertKnown(n == 1, "the-authentic-check-is-answered", kf, appended)
 	verifReach("done")
 }
